@@ -69,8 +69,14 @@ def check_unravel_2d(m: Model, r, rid: str) -> None:
 
     stores = [n for n in ast.walk(u2.node) if isinstance(n, ast.Assign) and isinstance(n.targets[0], ast.Subscript) and ast.unparse(n.targets[0].value) == mp]
     none_stores = [s for s in stores if isinstance(s.value, ast.Constant) and s.value.value is None]
-    helper_calls = [ast.unparse(n) for n in ast.walk(u2.node) if isinstance(n, ast.Call) and isinstance(n.func, ast.Attribute) and ast.unparse(n.func.value) == mp
-                    and n.func.attr in ("setdefault", "get", "pop", "update")]
+    # `map.setdefault(key, set())` creates the id set only for a key that is not in the map yet (and hands back the entry otherwise): it is the
+    # listing branch's "create if absent"; any other dict helper on the accumulator can replace or drop an entry
+    def creates_if_absent(n: ast.Call) -> bool:
+        return n.func.attr == "setdefault" and len(n.args) == 2 and isinstance(n.args[1], ast.Call) and ast.unparse(n.args[1]) == "set()" and not n.keywords
+    mp_calls = [n for n in ast.walk(u2.node) if isinstance(n, ast.Call) and isinstance(n.func, ast.Attribute) and ast.unparse(n.func.value) == mp
+                and n.func.attr in ("setdefault", "get", "pop", "update")]
+    helper_calls = [ast.unparse(n) for n in mp_calls if not creates_if_absent(n)]
+    creators = [n for n in mp_calls if creates_if_absent(n)]
     ok_none = len(none_stores) == 1 and not helper_calls and any(side == "else" and " in " in t and "not in" not in t for side, t in guards(none_stores[0])) and \
         not any(side == "then" and ("not in" in t or "is None" in t) for side, t in guards(none_stores[0]))
     r.check(ok_none, rid, f"{u2.qualname}#bare-key-means-all",
@@ -79,7 +85,7 @@ def check_unravel_2d(m: Model, r, rid: str) -> None:
     other = [s for s in stores if s not in none_stores]
     def key_of(s_):
         return ast.unparse(s_.targets[0].slice)
-    r.check(bool(other) and all(any(side == "then" and t.replace(" ", "") == f"{key_of(s)}notin{mp}" for side, t in guards(s)) for s in other), rid,
+    r.check(bool(other or creators) and all(any(side == "then" and t.replace(" ", "") == f"{key_of(s)}notin{mp}" for side, t in guards(s)) for s in other), rid,
             f"{u2.qualname}#listing-never-replaces-all",
             f"an id set may only be created for a key that is not in the map yet ({[ast.unparse(s) for s in other]}): otherwise a later `key:ids` entry "
             "replaces an earlier whole-key entry", loc=u2.loc)
